@@ -77,6 +77,7 @@ char *cmd_pipe(char *cmd, char *ibuf, int oproc)
 	int pid = cmd_make(argv, ibuf != NULL ? &ifd : NULL, oproc ? &ofd : NULL);
 	if (pid <= 0)
 		return NULL;
+	signal(SIGPIPE, SIG_IGN);	/* the command may exit without reading its input */
 	if (oproc)
 		sb = sbuf_make();
 	if (ibuf == NULL) {
